@@ -51,6 +51,8 @@ def run(ctx):
     rule_dispatch(ctx, F)
     rule_flags(ctx, F)
     rule_hdr12(ctx, F)
+    rule_rdend(ctx, F)
+    rule_room(ctx, F)
 
 
 SEGS = [("new::base::name::absolute::parse_segment", "size", +1), ("new::base::name::reversed::parse_segment", "offset", -1)]
@@ -1060,3 +1062,90 @@ def rule_hdr12(ctx, F):
                "octets in front of the name is refused and a pointer into the header accepted, unlike NameBuf / RevNameBuf and the "
                "established codec" % ("?" if got is None else got), b.where(bi))
     ctx.ob(R, b, "pointer test found", n >= 1, "no comparison of a compression pointer with the position found", nontrivial=False)
+
+
+def _proj(t):
+    """field(agg tuple [..], i) -> element i, everywhere in the term."""
+    if not isinstance(t, tuple):
+        return t
+    if t and t[0] == "field" and isinstance(t[1], tuple) and t[1][:1] == ("agg",) and t[1][1] == ("tuple",) and isinstance(t[2], int) and t[2] < len(t[1][2]):
+        return _proj(t[1][2][t[2]])
+    return tuple(_proj(x) if isinstance(x, tuple) else ([_proj(y) for y in x] if isinstance(x, list) else x) for x in t)
+
+
+def rule_rdend(ctx, F):
+    """A record of the new codec ends where its RDLENGTH says: the end of the window handed to the record-data parser
+    (and returned as the position of the next record) is `position behind the size field + size`, looked up in the
+    message with a *checked* `get(..end)`.  An end that is clamped, or otherwise computed from the message length, turns
+    a record that claims more data than the message holds into a shorter record that parses."""
+    R = "C19.rdend"
+    ctx.floor(R, 1)
+    n = 0
+    for p, b in sorted(F.bodies.items()):
+        if not re.match(r"^<new::base::record::Record<N, D> as new::base::parse::SplitMessageBytes<'a>>::split_message_bytes$", p):
+            continue
+        for bb, t in b.calls():
+            if not re.search(r"slice::<impl \[T\]>::get$", t["fn"] or "") or len(t["args"]) < 2:
+                continue
+            tm = _proj(deep_strip(b.term_of_operand(t["args"][1])))
+            if not (tm[0] == "agg" and tm[1][0] == "adt" and tm[1][1].endswith("RangeTo")):
+                continue
+            n += 1
+            end = _proj(deep_strip(tm[2][0]))
+            ok = False
+            why = show(end)[:120]
+            if end[0] == "bin" and end[1] == "Add":
+                a, c = end[2], end[3]
+                if c[0] == "cast":
+                    c = c[2]
+                size_call = c[0] == "call" and (c[1] or "").endswith("U16::get")
+                # the size is the value split off last, and `a` is the position that split returned
+                src = [x for x in walk(c) if x[0] == "call" and (x[1] or "").endswith("split_without_compression")]
+                asrc = [x for x in walk(a) if x[0] == "call" and (x[1] or "").endswith("split_without_compression")]
+                pos = a[0] == "field" and a[2] == 1 and src and asrc and asrc[0][5] == src[0][5]
+                ok = bool(size_call and pos)
+            ctx.ob(R, b, "rdata ends at (position behind RDLENGTH) + RDLENGTH", ok,
+                   "Record::split_message_bytes cuts the record data at %s instead of the position behind the size field plus the "
+                   "size: a record whose RDLENGTH runs past the end of the message is accepted with less data than it claims"
+                   % why, b.where(bb))
+    ctx.call_sites += n
+
+
+def rule_room(ctx, F):
+    """Siblings agree: SizePrefixed::build_in_message and ::build_bytes refuse exactly when the buffer cannot hold the
+    size field (`len < data_start`), no earlier: data of length zero behind a size field that just fits is a legal
+    encoding (an empty RDATA at the very end of the buffer)."""
+    R = "C19.room"
+    ctx.floor(R, 2)
+    n = 0
+    for p, b in sorted(F.bodies.items()):
+        m = re.match(r"^<new::base::wire::size_prefixed::SizePrefixed<S, T> as .*>::(build_in_message|build_bytes)$", p)
+        if not m:
+            continue
+        inner = [bb for bb, t in b.calls() if re.search(r"::%s$" % m.group(1), t["fn"] or "") and (t.get("targs") or [""])[0] == "T"]
+        if not ctx.anchor(R, "inner %s call in SizePrefixed::%s" % (m.group(1), m.group(1)), len(inner) == 1, b.where()):
+            continue
+        rel = []
+        for tm, v, _e in facts_at(b, inner[0], F):
+            tm = deep_strip(tm)
+            if tm[0] != "bin" or tm[1] not in ("Lt", "Le", "Gt", "Ge") or not isinstance(v, bool):
+                continue
+            l, r = tm[2], tm[3]
+            is_len = lambda x: x[0] == "call" and (x[1] or "").endswith("::len")
+            has_sz = lambda x: any(y[0] == "call" and (y[1] or "").endswith("mem::size_of") for y in walk(x))
+            if is_len(l) and has_sz(r):
+                op = tm[1]
+            elif is_len(r) and has_sz(l):
+                op = {"Lt": "Gt", "Le": "Ge", "Gt": "Lt", "Ge": "Le"}[tm[1]]
+            else:
+                continue
+            if not v:
+                op = {"Lt": "Ge", "Le": "Gt", "Gt": "Le", "Ge": "Lt"}[op]
+            rel.append(op)
+        n += 1
+        ctx.ob(R, b, "%s builds the data whenever the size field fits" % m.group(1), rel == ["Ge"],
+               "SizePrefixed::%s builds its data under `buffer length %s position behind the size field` (expected exactly one test, "
+               ">=): with `>` a value with no data (an empty RDATA, an empty OPT) cannot be written into a buffer it fits in exactly, "
+               "and its sibling accepts it" % (m.group(1), " and ".join({"Gt": ">", "Lt": "<", "Le": "<=", "Ge": ">="}[x] for x in rel) or "<no test>"),
+               b.where(inner[0]))
+    ctx.call_sites += n
